@@ -297,8 +297,61 @@ static void expect(Ctx &ctx, const Node &n, const char *acc, i128 got, int goter
 		                                          " with errno 0 although the value is not representable / no conversion exists");
 }
 
+// The text-to-number helpers the string coercions are built on, called directly (json_util.h).
+static void check_parse_helpers(Ctx &ctx, const std::string &s)
+{
+	TextInt t = ref_textint(std::string(s.c_str())); // as C strings: up to the first NUL
+	const i128 I64MIN = -((i128)1 << 63), I64MAX = ((i128)1 << 63) - 1, U64MAX = (((i128)1 << 64) - 1);
+	{
+		int64_t out = 0x5a5a5a5a5a5a5a5aLL;
+		errno = 0;
+		int r = json_parse_int64(s.c_str(), &out);
+		int e = errno;
+		if (!t.conv)
+		{
+			if (r == 0)
+				ctx.fail("parse-helper", "json_parse_int64(" + quote(s) + ") reports success without a digit");
+			if (out != 0x5a5a5a5a5a5a5a5aLL)
+				ctx.fail("parse-helper", "json_parse_int64(" + quote(s) + ") failed but stored " + str(out));
+		}
+		else
+		{
+			i128 v = t.neg ? -t.mag : t.mag;
+			i128 want = v < I64MIN ? I64MIN : v > I64MAX ? I64MAX : v;
+			if (r != 0 || (i128)out != want)
+				ctx.fail("parse-helper", "json_parse_int64(" + quote(s) + ") returned " + str(r) + " and stored " + str(out) + ", expected 0 and " + i128s(want));
+			if (want != v && e != ERANGE)
+				ctx.fail("parse-helper", "json_parse_int64(" + quote(s) + ") saturated without setting errno to ERANGE (errno " + str(e) + ")");
+		}
+	}
+	{
+		uint64_t out = 0x5a5a5a5a5a5a5a5aULL;
+		errno = 0;
+		int r = json_parse_uint64(s.c_str(), &out);
+		int e = errno;
+		if (!t.conv || t.neg)
+		{
+			// no digits, or a minus sign ("-0" included): refused, nothing stored
+			if (r == 0)
+				ctx.fail("parse-helper", "json_parse_uint64(" + quote(s) + ") reports success");
+			if (out != 0x5a5a5a5a5a5a5a5aULL)
+				ctx.fail("parse-helper", "json_parse_uint64(" + quote(s) + ") failed but stored " + str(out));
+		}
+		else
+		{
+			i128 want = t.mag > U64MAX ? U64MAX : t.mag;
+			if (r != 0 || (i128)out != want)
+				ctx.fail("parse-helper", "json_parse_uint64(" + quote(s) + ") returned " + str(r) + " and stored " + str(out) + ", expected 0 and " + i128s(want));
+			if (want != t.mag && e != ERANGE)
+				ctx.fail("parse-helper", "json_parse_uint64(" + quote(s) + ") saturated without setting errno to ERANGE (errno " + str(e) + ")");
+		}
+	}
+}
+
 static void check_accessors(Ctx &ctx, const Node &n)
 {
+	if (n.k == Node::Str)
+		check_parse_helpers(ctx, n.s);
 	json_object *j = n.make();
 	// get_int
 	errno = 0;
